@@ -748,8 +748,17 @@ def main():
 
     # ---- 4. collections
     n_coll = 24 if quick else 200
-    for n in range(n_coll):
-        members = [rand_spec(rng, rng.choice(kinds)) for _ in range(rng.randint(0 if n else 1, 4))]
+    homog = [kd for kd in kinds for _ in (0, 1)]      # every run, every seed: type-homogeneous collections with time bounds,
+    for n0 in range(len(homog) + n_coll):             # as FeatureCollection and as Track (mechanism class: a fast path of the
+        n = n0 - len(homog)                           # collection import / export taken when all members have one geometry type)
+        if n0 < len(homog):
+            members = [rand_spec(rng, homog[n0]) for _ in range(2 + n0 % 2)]
+            track = n0 % 2 == 1
+            for j, sp in enumerate(members):
+                sp['dt'] = [1, (0, 3), 7][(n0 + j) % 3]
+            n = n0 * 3 + 2 if track else n0 * 3       # (keeps `track = n % 3 == 2` below and the per-n choices deterministic)
+        else:
+            members = [rand_spec(rng, rng.choice(kinds)) for _ in range(rng.randint(0 if n else 1, 4))]
         track = n % 3 == 2
         if track:
             for j, sp in enumerate(members):
